@@ -465,7 +465,10 @@ def finding_class(rule, kind, inputs, ctx=None):
 def finding_key(rule, stmt, prob):
     kind = prob["kind"]
     rk = rule.kind_key() if rule is not None and kind in ("wrong-value",) else "any-rule"
-    return "C28:%s:%s:%s:%s" % (rk, FINDING_OP.get(stmt["op"], stmt["op"]), finding_class(rule, kind, prob["inputs"], stmt["ctx"]), kind)
+    cls = finding_class(rule, kind, prob["inputs"], stmt["ctx"])
+    if cls == "whole-operand" and rk != "any-rule":
+        rk = "aggregate"              # which aggregate functions expose a whole-operand defect depends on the data, not on the defect
+    return "C28:%s:%s:%s:%s" % (rk, FINDING_OP.get(stmt["op"], stmt["op"]), cls, kind)
 
 
 def candidate(rec, key, rank, payload):
